@@ -218,6 +218,21 @@ def ev_depths_lineages(dendropy, nested, nl, lineages):
                 v = -1
             q.append([int(d2), int(v)])
         out.append({"action": "Lineages", "g": b.g, "q": q, "raised": ";".join(sorted(set(r2)))})
+        # history: the same Tree object after its edge lengths changed (scale_edges(2), exact in floating point);
+        # no other call in between, so a stale root-distance cache would show.  The tree is projected again.
+        _, rs = call(lambda: t.scale_edges(2))
+        g2 = proj.tree_graph(t, labels=False)
+        q, r2 = [], ([rs] if rs else [])
+        for d in sorted(qs | set(2 * x for x in qs)):
+            d2 = d * 2 * LS
+            if d2 != int(d2):
+                continue
+            v, r = call(lambda: t.num_lineages_at(d))
+            if r:
+                r2.append(r)
+                v = -1
+            q.append([int(d2), int(v)])
+        out.append({"action": "Lineages", "g": g2, "q": q, "raised": ";".join(sorted(set(r2))), "hist": "after_scale_edges"})
     return out
 
 
